@@ -90,6 +90,31 @@ def parser_legacy(ctx):
             # the arm never leaves the parser: all num_opens blocks are parsed and the next gene is read
             ctx.check(p.end.startswith("loop:"), "R05.2", "Instruction/arm-continues(no-early-exit-from-block-loop)/%d" % n_instr, p.end, at,
                       bad_detail="a path through the Instruction arm leaves the parser (%s) before all of its num_opens() blocks were produced / the remaining genes were read: [%s]" % (p.end, cond_str(p)[-300:]))
+            # the blocks appended by one `program.extend(<num_opens() times: Block(parse(false, genes, fresh))>)`: a lazy
+            # n-fold repetition (repeat_with(..).take(n) / (0..n).map(|_| ..)) consumed front to back by Vec::extend
+            ext = [c for c in pushes if c not in ip and callee_is(c, "Extend::extend", "Vec::extend")]
+            if ext and not recs:
+                n_of = Call("NumOpens::num_opens", Through(lambda e: e == instr), nargs=1)
+                b = {}
+                okl = len(ext) == 1 and len(pushes) == 2 and ext[0][3][0] == ("param", 3) and (
+                    match(ext[0][3][1], Through(Call("Iterator::take", Call("iter::repeat_with", Bind("clo"), nargs=1), n_of, nargs=2)), b) or
+                    match(ext[0][3][1], Through(Call("Iterator::map", Agg("Range::Range", Const(0), n_of), Bind("clo"), nargs=2)), b)) and \
+                    b["clo"][0] == "agg" and b["clo"][1] == "closure" and p.calls().index(ip[0]) < p.calls().index(ext[0])
+                ctx.check(okl, "R05.2", "blocks/loop-over-0..num_opens(this-instruction)/%d" % n_instr, short(ext[0], 5), at,
+                          bad_detail="the blocks must be produced num_opens() times for the instruction just appended; extracted " + short(ext[0], 7))
+                if okl:
+                    n_block += 1
+                    cps = [q for q in (closure_paths(ctx, b["clo"]) or []) if q.end != "unreachable"]
+                    okb = len(cps) == 1 and cps[0].end == "return" and not cps[0].conds
+                    if okb:
+                        rc = [c for c in cps[0].calls() if callee_is(c, "PushProgram::parse_from_plushy")]
+                        fresh = peel(rc[0][3][2], ()) if (len(rc) == 1 and len(rc[0][3]) == 3) else None
+                        okb = fresh is not None and match(rc[0][3][0], Const(0)) and peel(rc[0][3][1], ()) == ("param", 2) and \
+                            callee_is(fresh, "Vec::new", "Vec::with_capacity", "Default::default") and match(cps[0].ret, Agg("PushProgram::Block", lambda e: e == fresh)) and \
+                            len([c for c in cps[0].calls() if not callee_is(c, "Vec::new", "Vec::with_capacity", "Default::default")]) == 1
+                    ctx.check(okb, "R05.2", "blocks/recursive-parse(false,same-iterator,fresh-vec)-then-append-Block", short(cps[0].ret, 5) if cps else "-", at,
+                              bad_detail="per opened block: Block(fresh) after parse_from_plushy(false, genes, &mut fresh); extracted " + "; ".join(short(q.ret, 6) for q in cps))
+                continue
             # block count loop
             lp = [c for c in p.conds if c[0][0] == "discr" and callee_is(c[0][1], "Iterator::next") and c[0][1] != nx[0]]
             okl = bool(lp) and match(lp[0][0][1][3][0], Through(Call("IntoIterator::into_iter", Agg("Range::Range", Const(0), Call("NumOpens::num_opens", Through(lambda e: e == instr), nargs=1)), nargs=1)))
@@ -110,7 +135,7 @@ def parser_legacy(ctx):
                           bad_detail="per opened block: parse_from_plushy(false, genes, &mut fresh) immediately followed by program.push(Block(fresh)); extracted " + ", ".join(short(c, 5) for c in recs + bp))
         else:
             ctx.bad("R05.1", "unclassified-gene-variant/%s" % gc[0][1], "a PushGene variant without a rule", at)
-    ctx.floor("R05.1", n_instr, 2, "Instruction-arm paths")
+    ctx.floor("R05.1", n_instr, 1, "Instruction-arm paths")
     ctx.floor("R05.3", n_close, 2, "Close-arm paths")
     ctx.floor("R05.2", n_block, 1, "block-parsing paths")
     ctx.check(adt is not None and sorted(vidx) == ["Close", "Instruction"], "R05.1", "PushGene-variants-all-classified", str(sorted(vidx)))
@@ -296,6 +321,10 @@ def check(ctx):
         v = [x for x in adt["variants"] if x["discr"] == d[0][1]][0]
         seen.add(v["name"])
         ok = match(p.ret, Call("NumOpens::num_opens", lambda a, v=v: payload_of(a, v["name"]), nargs=1)) and len([c for c in p.calls() if not callee_is(c, "Deref::deref")]) == 1
+        if not ok and p.ret is not None and p.ret[0] == "const" and not [c for c in p.calls() if not callee_is(c, "Deref::deref")]:
+            # the arm states the number itself: right iff it is what the table above requires of this variant's payload type
+            pty = (v.get("fields") or [{}])[0].get("ty", {}).get("path") or (v.get("fields") or [{}])[0].get("ty", {}).get("s", "")
+            ok = len(v.get("fields") or []) == 1 and p.ret[3] == NUMOPENS.get(pty.split("<")[0], 0)
         ctx.check(ok, "R05.4", "ExecInstruction::%s/forwards-to-own-payload" % v["name"], short(p.ret), f.at(),
                   bad_detail="arm %s must return num_opens() of its own payload; extracted %s" % (v["name"], short(p.ret, 5)))
     ctx.check(seen == {v["name"] for v in adt["variants"]}, "R05.4", "ExecInstruction/all-%d-variants-dispatched" % len(adt["variants"]), str(sorted(seen)))
